@@ -339,6 +339,9 @@ func wf(t types.Type, v Val) T {
 		return tAnd(app("bvsle", i64(0), s.L), app("bvsle", s.L, s.C), app("bvsle", s.C, i64(maxLen)),
 			app("bvsle", i64(0), s.O), app("bvsle", s.O, i64(maxLen)),
 			tImp(tEq(s.B, null), tEq(s.C, i64(0))))
+	case *types.Interface:
+		iv := v.(*IfaceV)
+		return tImp(tEq(iv.Ty, bvLit(32, 0)), tEq(iv.V, null))
 	case *types.Struct:
 		sv, ok := v.(*StructV)
 		if !ok {
